@@ -376,6 +376,13 @@ func (s *Syncer) handleRPC(id types.Specifier, stream *gateway.Stream, origin *P
 		// quickly as possible that a new block has been found. A proper
 		// BlockOutline should follow soon after, allowing peers to obtain the
 		// actual block. As such, we take no action here other than relaying.
+		//
+		// Below the v2 require height the block may be a v1 block, for which no
+		// outline exists: fetch it through the sync loop instead, otherwise a
+		// peer that is exactly one block ahead of us is never asked for it.
+		if cs.Index.Height+1 < cs.Network.HardforkV2.RequireHeight {
+			s.resync(origin, "peer relayed a header that attaches to our tip and may belong to a v1 block")
+		}
 		go s.relayV2Header(r.Header, origin) // non-blocking
 		return nil
 
